@@ -245,3 +245,29 @@ Lemma oml_streamable_orig_witness :
   ordered_merge_left Fixed 8 [0;1] [0;2] [[101;102]] FFldSink [] MArr false true
     = Ok (mk_oml None (Some [[101;0]]) None).
 Proof. repeat split; vm_compute; reflexivity. Qed.
+
+(* ------------------------------------------------------------------ wrappers used by Props/C19.v *)
+Lemma omr_inmemory_correct : forall left_on right_on srcs left_unique,
+  srcs <> [] -> sorted right_on -> (true = true -> ssorted right_on) -> ssorted left_on ->
+  len left_on <= INVALID_INDEX -> (forall s, In s srcs -> len s = len left_on) ->
+  forall ver cs fm sinks0 mk,
+  streamable ver fm mk = false -> (fm = FArrSink -> sinks0 = zero_sinks right_on srcs) ->
+  left_unique = true ->
+  exists o, ordered_merge_right ver cs left_on right_on srcs fm sinks0 mk left_unique true = Ok o /\
+            oml_payloads o = Some (map (left_payload 0 right_on left_on) srcs).
+Proof.
+  intros lo ro srcs lu H1 H2 H3 H4 H5 H6 ver cs fm sinks0 mk H7 H8 ->.
+  destruct (oml_inmemory_correct ro lo srcs true H1 H2 H3 H4 H5 H6 ver cs fm sinks0 mk H7 H8) as (o & E & P & _).
+  exists o. split; [exact E|exact P].
+Qed.
+
+Lemma streamed_old_refuted_lemma :
+  exists L R cs, sorted L /\ ssorted R /\ 1 <= cs /\ len L < cs /\
+    forall m u, streamed_old L R INVALID_INDEX cs = Ok (m, u) -> m <> map snd (left_join INVALID_INDEX L R).
+Proof.
+  exists [0;2;3;4], [1;2], 8.
+  split; [apply sortedb_sorted; reflexivity|]. split; [apply ssortedb_ssorted; reflexivity|].
+  split; [lia|]. split; [reflexivity|].
+  intros m u H. rewrite (proj1 streamed_old_tail_witness) in H. injection H as <- _.
+  rewrite (proj2 streamed_old_tail_witness). discriminate.
+Qed.
